@@ -595,6 +595,18 @@ def make_machine(prop, tier, cfg):
         def failed_design(self, k):
             self.sess.apply('failed_design', {'solver_call': k})
 
+        @precondition(lambda self: self.sess is not None and self.sess.world.get('flavour') in ('multiband', 'raman'))
+        @rule(k=st.integers(1, 6), first=st.integers(0, len(SIM_DOCS) - 1), then=st.integers(0, len(SIM_DOCS) - 1))
+        def aborted_design_then_other_settings(self, k, first, then):
+            # a design dies in the solver under one setting; the operator changes the setting and designs again; what the
+            # aborted design left behind must not show in that design nor in the round trip that follows
+            self.sess.apply('set_sim', {'doc': SIM_DOCS[first]})
+            self.sess.apply('failed_design', {'solver_call': k})
+            self.sess.apply('set_sim', {'doc': SIM_DOCS[then]})
+            self.sess.apply('design', {})
+            self.sess.apply('export', {'fault': None})
+            self.sess.apply('reload_redesign', {'fault': None})
+
         @precondition(lambda self: self.swarm['sim'])
         @rule(which=st.integers(0, len(SIM_DOCS) - 1))
         def set_sim(self, which):
